@@ -324,7 +324,8 @@ class OpenFile(Unit):
         fs0 = FS.fs_of(ex)
         cell = z3.Select(fs0, name.t)
         b = FS.OptBytes.bytes(cell)
-        encs = list(simfile.ENCODINGS)
+        from props.constants_common import STATED_ENCODINGS
+        encs = list(STATED_ENCODINGS)       # the statement's list, not the module's
         fn = ex.closure_of(Q + self.entry)
         kind, r = ex.run_function(fn, [name], {"strict": strict, "filesystem": fs})
         ign = z3.Not(strict.t)
@@ -401,3 +402,7 @@ def witness_search(tier, seed):
 
 from pyvc.xcheck import MsdTextProbe, StringAxiomProbe   # noqa: E402
 THOROUGH_BOUNDED = [MsdTextProbe(), StringAxiomProbe()]
+
+# tables the statement pins down by value (props/constants_common.py)
+from props.constants_common import ClosedConstants   # noqa: E402
+UNITS = list(UNITS) + [ClosedConstants('default-encodings', 'multi-value-properties')]
